@@ -1660,6 +1660,24 @@ func runC01(c *Ctx) {
 			return cal != nil && cal.Name() == "Evaluate" && cal.Pkg != nil && cal.Pkg.Pkg.Path() == pBase
 		}, 6, "an operand must be the value its atom read, unchanged")
 	}
+	// G3: the tree that is evaluated is the tree that was parsed: the node a handler of the expression
+	// level takes off the listener's stack is handed to its parent on every path (the attach rule of
+	// C02-S9 / C10-K6 for these handlers) -- a handler that hands on the child of a bracketed expression
+	// instead of its own node, folding the bracket's `!` into the child's single flag, turns !(!x) into !x
+	exprHandlers := map[string]bool{"ExitMathExpression": true, "ExitExpression": true, "ExitExpressionAtom": true, "ExitConstant": true, "ExitMapVar": true,
+		"ExitMethodCall": true, "ExitThreeLevelCall": true, "ExitFunctionCall": true, "ExitFunctionArgs": true}
+	c.only = func(key string) bool {
+		k := strings.TrimPrefix(key, "GengineParserListener.")
+		if i := strings.Index(k, "#"); i >= 0 {
+			k = k[:i]
+		}
+		return exprHandlers[k]
+	}
+	c.ruleListenerAttach("G3-tree-built-as-parsed")
+	c.only = nil
+	c.Min("G3-tree-built-as-parsed", 6)
+	c.ruleAcceptStoresGiven("G3-nodes-hold-what-was-parsed", map[string]bool{"Expression": true, "MathExpression": true, "ExpressionAtom": true, "MapVar": true})
+	c.Min("G3-nodes-hold-what-was-parsed", 12)
 	if c.Tier == "thorough" {
 		c.ruleATN("G1-atn-cross-check")
 	}
